@@ -865,11 +865,11 @@ class InterfaceClass(_InterfaceClassBase):
         if not all:
             return self.__attrs.items()
 
+        # Follow the resolution order, like ``get`` / ``__getitem__`` do, so
+        # that the first interface in ``__iro__`` defining a name wins.
         r = {}
-        for base in self.__bases__[::-1]:
-            r.update(dict(base.namesAndDescriptions(all)))
-
-        r.update(self.__attrs)
+        for iface in self.__iro__[::-1]:
+            r.update(dict(iface.namesAndDescriptions()))
 
         return r.items()
 
